@@ -4,7 +4,8 @@ set -u
 cd "$(dirname "$0")"
 export CARGO_NET_OFFLINE=true
 mkdir -p .cache out evidence ocaml/gen ocaml/build
-( cd coq && coq_makefile -f _CoqProject -o Makefile.coq >/dev/null && timeout 7000 make -f Makefile.coq -j16 2>&1 | grep -v '^COQC\|^COQDEP\|^Closed under' | tail -40 )
+python3 -c "import importlib.machinery,importlib.util;l=importlib.machinery.SourceFileLoader('check','/verif/check');sp=importlib.util.spec_from_loader('check',l);m=importlib.util.module_from_spec(sp);l.exec_module(m);m.coq_makefile()"
+( cd coq && timeout 7000 make -f Makefile.coq -j16 2>&1 | grep -v '^COQC\|^COQDEP\|^Closed under' | tail -40 )
 rc=${PIPESTATUS[0]}
 [ -f harness/Cargo.lock ] || cp /repo/Cargo.lock harness/Cargo.lock
 ( cd harness && cargo build --offline --bins 2>&1 | tail -5 )
